@@ -145,15 +145,37 @@ package runtime
 //@ iface Element.String(self) (s)
 //@   modifies nothing
 //@ iface Element.GetProperty(self, name) (r, err)
+//@   requires vmFrame()
 //@   ensures err == nil ==> okElem(r)
+//@   ensures vmFrame()
+//@   ensures [balanced] err == nil && theVM != nil ==> theVM.csCount == old(theVM.csCount)
 //@ iface Element.SetProperty(self, name, value) (err)
-//@   requires okElem(value)
+//@   requires okElem(value) && vmFrame()
+//@   ensures vmFrame()
+//@   ensures [balanced] err == nil && theVM != nil ==> theVM.csCount == old(theVM.csCount)
 //@ iface Element.ExecMethod(self, name, params) (r, err)
+//@   requires vmFrame()
 //@   ensures err == nil ==> okElem(r)
+//@   ensures vmFrame()
+//@   ensures [balanced] err == nil && theVM != nil ==> theVM.csCount == old(theVM.csCount)
+//@ iface ConstructableElement.Construct(self, params) (r, err)
+//@   requires vmFrame()
+//@   ensures err == nil ==> okElem(r)
+//@   ensures vmFrame()
+//@   ensures [balanced] err == nil && theVM != nil ==> theVM.csCount == old(theVM.csCount)
 
 // the executor of a method / constructor: whatever it does, a nil error comes with a usable result
+// theVM: the virtual machine of the running execution (a ghost constant). Method/constructor executors are generic
+// closures; what they need and keep of the VM is stated about theVM, and the evaluator identifies its vm with it.
+//@ ghostconst theVM *VM
+// whatever a built-in member or executor does, it leaves the running VM with an active frame and a current scope
+//@ pred vmFrame() = theVM != nil ==> frameOK(theVM)
 //@ functype FuncExecutor(receiver, params) (r, err)
+//@   requires receiver == nil || okElem(receiver)
+//@   requires vmFrame()
 //@   ensures err == nil ==> okElem(r)
+//@   ensures vmFrame()
+//@   ensures [balanced] err == nil && theVM != nil ==> theVM.csCount == old(theVM.csCount)
 
 // ---- VM (C08 call frames, C10 accessors) ----
 
@@ -254,11 +276,11 @@ package runtime
 //@ method (*VM).GetThisValue
 //@   requires vmWF(vm) && vm.csCount >= 1
 //@   pure
-//@   ensures result == vm.callStack[vm.csCount-1].thisValue
+//@   ensures result == vm.callStack[vm.csCount-1].thisValue && (result == nil || okElem(result))
 //@ method (*VM).GetReturnValue
 //@   requires vmWF(vm) && vm.csCount >= 1
 //@   pure
-//@   ensures result == vm.callStack[vm.csCount-1].returnValue
+//@   ensures result == vm.callStack[vm.csCount-1].returnValue && (result == nil || okElem(result))
 //@ method (*VM).SetReturnValue
 //@   requires vmWF(vm) && vm.csCount >= 1 && (value == nil || okElem(value))
 //@   modifies vm.callStack[vm.csCount-1].returnValue
